@@ -96,6 +96,9 @@ func main() {
 		for s := 0; s < cfg.N(4, 16); s++ {
 			add(childSpec{Mode: "churn", Shard: s, N: cfg.N(40, 300), LogLevel: levels[(s+2)%len(levels)]}, cfg.BinPlain, 15*time.Minute)
 		}
+		for s := 0; s < cfg.N(6, 12); s++ {
+			add(childSpec{Mode: "expiry", Shard: s, LogLevel: levels[(s+4)%len(levels)]}, cfg.BinPlain, 10*time.Minute)
+		}
 		for s := 0; s < cfg.N(2, 8); s++ {
 			add(childSpec{Mode: "revoke", Shard: s, N: cfg.N(5, 30), LogLevel: levels[(s+3)%len(levels)]}, cfg.BinPlain, 15*time.Minute)
 		}
@@ -172,7 +175,8 @@ func finish(cfg vlib.Cfg, rep *vlib.Report) {
 	rep.Set("exhaustive", true)
 	rep.Set("exhaustive_subspaces", []string{
 		"declared read x write in {NotFound,Dynamic,NotSupported,Anyone,User,Admin,Self,+100,-100}^2 (plain handlers) and {Dynamic..Self}^2 (Endpoints of all five function types) x 15 method variants x every credential value (none; authenticator ok for all 9x9 granted pairs, nil, error, denied; session valid and expired for all 9x9 pairs, reset, unknown; API keys for all 3x3 permission pairs, default, short-but-valid, future expiry, expired at configuration, expired after configuration, unknown, unknown shorter than 4 bytes (lengths 0..4), as Bearer and three Basic forms; 10 malformed Authorization forms)",
-		"Origin sub-table: 26 Origin values x dev on/off x 15 method variants x 9 declared x one credential per class",
+		"Origin sub-table: 26 Origin values x dev on/off x 15 method variants x 9 declared x one credential per class; plus 5 Host header forms (no port, IP:port, local name, IPv6 literal, bare name) x 9 Origins derived from the Host (same, other/no/default port, foreign)",
+		"expiry sub-table: 6 orders of keys with different expiry (one passing its expiry while loaded) x before/after x Bearer/Basic x 11 handlers x 5 methods",
 		"development mode sub-table: every target x method variant x one credential per class",
 		"bridge sub-table: every Endpoint x 7 methods x dev on/off",
 	})
@@ -183,6 +187,7 @@ func finish(cfg vlib.Cfg, rep *vlib.Report) {
 	rep.Floor(rep.Counter("key_updates_awaited") >= 10, "key_updates_awaited=%d", rep.Counter("key_updates_awaited"))
 	rep.Floor(rep.Counter("sessions_created") >= 100, "sessions_created=%d", rep.Counter("sessions_created"))
 	rep.Floor(rep.Counter("fuzz_headers") >= int64(cfg.N(5000, 500000)), "fuzz_headers=%d", rep.Counter("fuzz_headers"))
+	rep.Floor(rep.Counter("expiry_requests_after") >= 500, "expiry_requests_after=%d", rep.Counter("expiry_requests_after"))
 	rep.Floor(rep.Counter("bridge_requests") >= 100, "bridge_requests=%d", rep.Counter("bridge_requests"))
 	rep.Floor(rep.Counter("wire_requests") >= 50, "wire_requests=%d", rep.Counter("wire_requests"))
 	rep.Floor(rep.Counter("concurrent_requests") >= 1000, "concurrent_requests=%d", rep.Counter("concurrent_requests"))
@@ -192,7 +197,7 @@ func finish(cfg vlib.Cfg, rep *vlib.Report) {
 	}
 	rep.Assume("the model reads the documentation as: GET/HEAD = read class, POST/PUT/DELETE = write class, OPTIONS takes the class of Access-Control-Request-Method; order of precedence dev mode > bridge > API key > session > authenticator; where several credentials are presented any documented reading is accepted")
 	rep.Assume("requests reach the handler through net/http semantics: header values are trimmed of leading/trailing blanks and contain no control characters")
-	rep.Assume("an Origin whose host name equals the Host but whose port differs or is missing, non-serialized Origin values containing the host name, and browser-extension schemes other than chrome-extension are left open by the statement: either answer is accepted")
+	rep.Assume("Origin vs Host is decided on host:port: same name with another or no port than the Host header's is cross-origin (refused); a Host header without a port is matched by the Origin's host name alone (documented in the router). Left open, either answer accepted: host names differing only in letter case, trailing dot or IPv6 brackets; non-serialized Origin values (path, query, fragment, userinfo) that contain the host name; browser-extension schemes other than chrome-extension")
 	rep.Assume("session expiry is forced through api.VerifExpireSessions (the 5 minute TTL is not waited out); key expiry is real time with a 0.9 s abstention margin")
 }
 
@@ -249,6 +254,8 @@ func childMain(dir string) {
 		rerr = runChurn(w, j, cs)
 	case "revoke":
 		rerr = runRevoke(w, j, cs)
+	case "expiry":
+		rerr = runExpiry(w, j, cs)
 	case "fuzz":
 		rerr = runFuzz(w, j, cs)
 	case "wire":
